@@ -18,6 +18,7 @@ run)
   for id in "$@"; do
     mod=$(echo $id | tr A-Z a-z); mkdir -p $P/$id; rm -f $P/$id/*.profraw
     (cd /verif && VERIF_GRACEFUL=1 LLVM_PROFILE_FILE="$P/$id/%p-%m.profraw" VDRV_TARGET=$T VERIF_OUT=$O python3-vt -m pbt.props.$mod --tier quick 2>&1 | grep -E "^\[$id\] tier|^VIOLATION" | cut -c1-160)
+    n=0; while pgrep -f "$T/(release|checked)/v(drv|srv)" >/dev/null && [ $n -lt 60 ]; do sleep 1; n=$((n+1)); done   # drivers write their profile when they end
     $BIN/llvm-profdata merge -sparse $P/$id/*.profraw -o $P/$id.profdata 2>/dev/null && rm -f $P/$id/*.profraw
   done
   ;;
@@ -34,5 +35,18 @@ for l in open('/verif/properties.jsonl'):
     python3 /verif/tools/coverage_gaps.py $O/$id.cov.txt > $O/$id.gaps.txt
     echo "$id: $(tail -1 $O/$id.gaps.txt)   -> $O/$id.gaps.txt"
   done
+  ;;
+union)
+  # lines of ALL anchor files that no quick tier of any property reaches
+  $BIN/llvm-profdata merge -sparse $P/*.profdata -o $P/ALL.merged
+  files=$(python3 -c "
+import json
+fs=set()
+for l in open('/verif/properties.jsonl'):
+    fs.update('/repo/'+f for f in json.loads(l)['anchors']['files'] if f.endswith('.rs'))
+print(' '.join(sorted(fs)))")
+  $BIN/llvm-cov show $T/release/vdrv -instr-profile=$P/ALL.merged $files > $O/ALL.cov.txt
+  python3 /verif/tools/coverage_gaps.py $O/ALL.cov.txt > $O/ALL.gaps.txt
+  tail -1 $O/ALL.gaps.txt; grep "^==" $O/ALL.gaps.txt
   ;;
 esac
